@@ -2,15 +2,18 @@ package main
 
 import (
 	"crypto/ed25519"
+	"errors"
 	"fmt"
 	"strings"
 
+	"github.com/aperturerobotics/bifrost/crypto"
 	"github.com/aperturerobotics/bifrost/peer"
+	"github.com/zeebo/blake3"
 
 	"verif/harness/lib"
 )
 
-var deriveCtxs = []string{"", "a", "bifrost/test derive v1", "example.com 2019-12-25 16:18:03 session tokens v1", "bifrost/test derive v2", "\x00", "\xff\xfe ctx", strings.Repeat("long context ", 20)}
+var deriveCtxs = append([]string{"", "a", "bifrost/test derive v1", "example.com 2019-12-25 16:18:03 session tokens v1", "bifrost/test derive v2", "\x00", "\xff\xfe ctx", strings.Repeat("long context ", 20)}, formatCtxs[:12]...)
 
 func saltClass(s []byte) string {
 	switch {
@@ -54,11 +57,144 @@ func (e *engine) deriveCase(k *key, ctx string, salt []byte, n int, gen string) 
 	return impl
 }
 
+// stubKey is a crypto.PrivKey that is not bifrost's Ed25519 implementation.
+type stubKey struct{ raw []byte }
+
+func (k *stubKey) Equals(o crypto.Key) bool    { return false }
+func (k *stubKey) Raw() ([]byte, error)        { return k.raw, nil }
+func (k *stubKey) Type() crypto.KeyType        { return crypto.KeyType_Ed25519 }
+func (k *stubKey) Sign([]byte) ([]byte, error) { return nil, errors.New("stub") }
+func (k *stubKey) GetPublic() crypto.PubKey    { return nil }
+
+// stubPub is a crypto.PubKey that is not bifrost's Ed25519 implementation.
+type stubPub struct{ raw []byte }
+
+func (k *stubPub) Equals(o crypto.Key) bool            { return false }
+func (k *stubPub) Raw() ([]byte, error)                { return k.raw, nil }
+func (k *stubPub) Type() crypto.KeyType                { return crypto.KeyType_Ed25519 }
+func (k *stubPub) Verify([]byte, []byte) (bool, error) { return false, nil }
+
+// keyArg is a crypto.PrivKey value of one of the classes PrivKeyToStdKey distinguishes.
+type keyArg struct {
+	class string         // nil-interface | nil-pointer | foreign | ed25519
+	model string         // key= argument for the model
+	sk    crypto.PrivKey // the value passed to the real code
+	k     *key
+}
+
+func (e *engine) keyArgs(k *key) []keyArg {
+	return []keyArg{
+		{"nil-interface", "nil", nil, nil},
+		{"nil-pointer", "nil", (*crypto.Ed25519PrivateKey)(nil), nil},
+		{"foreign", "foreign", &stubKey{raw: clone(k.priv)}, nil},
+		{"foreign", "foreign", (*stubKey)(nil), nil},
+		{"ed25519", lib.Hex(k.priv), k.sk, k},
+	}
+}
+
+// deriveArgCase: DeriveKey on any crypto.PrivKey value and any `out` (nil = a nil slice).
+func (e *engine) deriveArgCase(ka keyArg, ctx string, salt []byte, n int, nilOut bool, gen string) {
+	op := fmt.Sprintf("encrypt.deriveArg key=%s ctx=%s salt=%s n=%d", ka.model, lib.Hex([]byte(ctx)), lib.Hex(salt), n)
+	model, _ := e.oracleQuery(op)
+	run := func() string {
+		return outcome(func() ([]byte, error) {
+			var out []byte
+			if !nilOut {
+				out = make([]byte, n)
+			}
+			err := peer.DeriveKey(ctx, salt, ka.sk, out)
+			return out, err
+		})
+	}
+	impl := run()
+	mon := ""
+	switch {
+	case impl == "panic":
+		mon = "DeriveKey panics (" + ka.class + " key, " + gen + ")"
+	case impl != run():
+		mon = "DeriveKey is not deterministic (" + ka.class + " key, " + gen + ")"
+	case ka.k == nil && impl != "err":
+		mon = "DeriveKey does not report an error for a " + ka.class + " key"
+	case ka.k != nil && impl == "err":
+		mon = "DeriveKey fails for an honest Ed25519 key (" + gen + ")"
+	case ka.k != nil:
+		// stated without the model: BLAKE3 derive-key over the documented input, computed with the stdlib pipeline
+		if want := specDerive(ka.k, ctx, salt, n); want != nil && impl != "ok "+lib.Hex(want) {
+			mon = fmt.Sprintf("DeriveKey output (%d bytes) is not BLAKE3-derive-key(context, const ‖ salt ‖ material⊕context) (%s)", n, gen)
+		}
+	}
+	e.rep.Compare(op, model, impl, "deriveArg."+ka.class+"."+branchOf(model)+"."+gen, "encrypt.deriveArg:"+ka.class+"/"+gen, mon)
+}
+
+// specDerive recomputes DeriveKey from its documentation with the stdlib / x-crypto / zeebo primitives.
+func specDerive(k *key, ctx string, salt []byte, n int) []byte {
+	x64 := clamp(k.seed)
+	h := blake3.Sum256(append(clone(x64), ctx...))
+	eph := ed25519.NewKeyFromSeed(h[:]).Public().(ed25519.PublicKey)
+	ex := edToMont(eph)
+	if ex == nil || specSmallOrder(eph) {
+		return nil
+	}
+	mat := x25519(x64[:32], ex)
+	if mat == nil {
+		return nil
+	}
+	for i := range mat {
+		if len(ctx) != 0 {
+			mat[i] ^= ctx[i%len(ctx)]
+		}
+	}
+	in := append([]byte("bifrost/peer/derive-key"), salt...)
+	return kdf([]byte(ctx), append(in, mat...), n)
+}
+
+// deriveEdCase: DeriveEd25519Key on any crypto.PrivKey value.
+func (e *engine) deriveEdCase(ka keyArg, ctx string, salt []byte, gen string) {
+	op := fmt.Sprintf("encrypt.deriveEd key=%s ctx=%s salt=%s", ka.model, lib.Hex([]byte(ctx)), lib.Hex(salt))
+	model, _ := e.oracleQuery(op)
+	var gotPub []byte
+	run := func() string {
+		return outcome(func() ([]byte, error) {
+			sk, pk, err := peer.DeriveEd25519Key(ctx, salt, ka.sk)
+			if err != nil {
+				return nil, err
+			}
+			raw, err := sk.Raw()
+			if err != nil {
+				return nil, err
+			}
+			gotPub, _ = pk.Raw()
+			return raw, nil
+		})
+	}
+	impl := run()
+	mon := ""
+	switch {
+	case impl == "panic":
+		mon = "DeriveEd25519Key panics (" + ka.class + " key, " + gen + ")"
+	case impl != run():
+		mon = "DeriveEd25519Key is not deterministic (" + ka.class + " key, " + gen + ")"
+	case ka.k == nil && impl != "err":
+		mon = "DeriveEd25519Key does not report an error for a " + ka.class + " key"
+	case ka.k != nil && impl == "err":
+		mon = "DeriveEd25519Key fails for an honest Ed25519 key (" + gen + ")"
+	case ka.k != nil:
+		if seed := specDerive(ka.k, ctx, salt, 32); seed != nil {
+			want := ed25519.NewKeyFromSeed(seed)
+			if impl != "ok "+lib.Hex(want) || lib.Hex(gotPub) != lib.Hex(want[32:]) {
+				mon = "DeriveEd25519Key is not the Ed25519 key pair of the 32-byte DeriveKey output (" + gen + ")"
+			}
+		}
+	}
+	e.rep.Compare(op, model, impl, "deriveEd."+ka.class+"."+branchOf(model), "encrypt.deriveEd:"+ka.class+"/"+gen, mon)
+}
+
 func (e *engine) runC13() {
 	e.rep.Rule = "DeriveKey / DeriveEd25519Key: keys x contexts (incl. empty, NUL, non-UTF-8, long) x salts (nil, empty, short, 1000 bytes) x output lengths 0..200; each output compared with the model skeleton over an independent stdlib pipeline (sha512 clamp, ed25519, edwards25519 BytesMontgomery, x/crypto X25519, zeebo/blake3); determinism; pairwise inequality matrix over all (key, context, salt) at 32 bytes; distinct = distinct op line"
 	e.rep.Require("derive.ok", "matrix", "ed25519")
 	keys := []*key{e.newKey(), e.newKey(), e.newKey()}
 	salts := [][]byte{nil, {}, {0}, []byte("salt"), []byte("salt2"), e.rng.Bytes(32), e.rng.Bytes(1000)}
+	e.runC13Args(keys, salts)
 	// matrix at n = 32
 	seen := map[string]string{}
 	for ki, k := range keys {
@@ -138,5 +274,70 @@ func (e *engine) runC13() {
 			cls = "empty-context"
 		}
 		e.rep.Compare(op, "x", "x", "ed25519", "encrypt.derive:"+cls, mon)
+	}
+}
+
+// runC13Args: every class of crypto.PrivKey value (nil interface, nil pointer, foreign implementation,
+// Ed25519) through DeriveKey with output lengths 0 (nil and empty `out`), 32, 1024, 65536 and through
+// DeriveEd25519Key; the Ed25519 outputs are compared with the model AND recomputed from the documentation
+// with the stdlib pipeline; an inequality matrix over the derived Ed25519 keys.
+func (e *engine) runC13Args(keys []*key, salts [][]byte) {
+	e.rep.Require(
+		"deriveArg.nil-interface.err.len-32", "deriveArg.nil-pointer.err.len-32", "deriveArg.foreign.err.len-32",
+		"deriveArg.nil-interface.err.nil-out", "deriveArg.foreign.err.len-65536",
+		"deriveArg.ed25519.ok.nil-out", "deriveArg.ed25519.ok.len-0", "deriveArg.ed25519.ok.len-32", "deriveArg.ed25519.ok.len-1024", "deriveArg.ed25519.ok.len-65536",
+		"deriveEd.nil-interface.err", "deriveEd.nil-pointer.err", "deriveEd.foreign.err", "deriveEd.ed25519.ok", "edmatrix",
+	)
+	seen := map[string]string{}
+	for i := 0; i < 6*e.a.Scale; i++ {
+		k := keys[i%3]
+		ctx := deriveCtxs[i%len(deriveCtxs)]
+		if i >= len(deriveCtxs) {
+			ctx = string(e.rng.Bytes(e.rng.Intn(40)))
+		}
+		salt := salts[(i*3+1)%len(salts)]
+		for _, ka := range e.keyArgs(k) {
+			e.deriveArgCase(ka, ctx, salt, 0, true, "nil-out")
+			e.deriveArgCase(ka, ctx, salt, 0, false, "len-0")
+			e.deriveArgCase(ka, ctx, salt, 32, false, "len-32")
+			if ka.k == nil || i < 2 || e.a.Scale > 1 {
+				e.deriveArgCase(ka, ctx, salt, 1024, false, "len-1024")
+				e.deriveArgCase(ka, ctx, salt, 65536, false, "len-65536")
+			}
+			e.deriveEdCase(ka, ctx, salt, "args")
+		}
+	}
+	// derived Ed25519 keys: pairwise different over (key, context, salt)
+	for ki, k := range keys {
+		for ci, ctx := range deriveCtxs {
+			for si, salt := range salts {
+				if (ki+ci+si)%3 != 0 && e.a.Scale == 1 {
+					continue
+				}
+				id := fmt.Sprintf("key%d|%s|%s", ki, lib.Hex([]byte(ctx)), lib.Hex(salt))
+				res := outcome(func() ([]byte, error) {
+					sk, _, err := peer.DeriveEd25519Key(ctx, salt, k.sk)
+					if err != nil {
+						return nil, err
+					}
+					return sk.Raw()
+				})
+				mon := ""
+				switch {
+				case !strings.HasPrefix(res, "ok "):
+					mon = "DeriveEd25519Key fails or panics for an honest key: " + res
+				default:
+					if prev, ok := seen[res]; ok && prev != id {
+						mon = "two different (key, context, salt) inputs derive the same Ed25519 key: " + prev + " and " + id
+					}
+					seen[res] = id
+				}
+				cls := "edmatrix"
+				if ctx == "" {
+					cls = "empty-context"
+				}
+				e.rep.Compare("edmatrix "+id, "x", "x", "edmatrix", "encrypt.deriveEd:"+cls, mon)
+			}
+		}
 	}
 }
